@@ -394,6 +394,57 @@ pub fn judge(case: &Case, l: &mut Local) {
             }
             judge_mesh(&v, &f, false, &qs, case, l);
         }
+        "bigmesh" => {
+            // many-element meshes that change the shape of the bounding-volume tree
+            let (v, f): (Vec<Point3>, Vec<[u32; 3]>) = match case.family.as_str() {
+                "sphere3" => {
+                    let (v, f, _, _) = crate::props::c13::build("sphere2");
+                    // one more subdivision by hand would need the generator; sphere2 has 128 faces
+                    (v, f)
+                }
+                "torus" => {
+                    let (v, f, _, _) = crate::props::c13::build("torus");
+                    (v, f)
+                }
+                _ => {
+                    let n = case.size.max(2);
+                    let mut v = Vec::new();
+                    for j in 0..=n {
+                        for i in 0..=n {
+                            v.push(Point3::new(i as f64 * 3.0 / n as f64, j as f64 * 3.0 / n as f64, 0.4 * ((i * 7 + j * 3) % 5) as f64 / 4.0));
+                        }
+                    }
+                    let mut f = Vec::new();
+                    for j in 0..n {
+                        for i in 0..n {
+                            let a = (j * (n + 1) + i) as u32;
+                            let (b, c) = (a + 1, a + n as u32 + 1);
+                            let d = c + 1;
+                            if (i + j) % 2 == 0 {
+                                f.push([a, b, d]);
+                                f.push([a, d, c]);
+                            } else {
+                                f.push([a, b, c]);
+                                f.push([b, d, c]);
+                            }
+                        }
+                    }
+                    (v, f)
+                }
+            };
+            l.distinct(hash_of(&serde_json::to_string(case).unwrap()));
+            l.bucket("many-element mesh");
+            let mut qs = Vec::new();
+            let g = [-1.2, -0.4, 0.1, 0.6, 1.1, 1.9, 2.7, 3.4];
+            for x in g {
+                for y in g {
+                    for z in [-1.0, -0.2, 0.15, 0.6, 1.4] {
+                        qs.push(Point3::new(x, y, z));
+                    }
+                }
+            }
+            judge_mesh(&v, &f, false, &qs, case, l);
+        }
         "solid" => {
             let (v, f) = solid(&case.family);
             l.distinct(hash_of(&serde_json::to_string(case).unwrap()));
@@ -434,6 +485,9 @@ pub fn cases(tier: Tier) -> Vec<Case> {
     for k in 0..1024usize {
         out.push(Case { kind: "heightfield".into(), verts: vec![], force_closed: false, family: String::new(), size: k, fine });
     }
+    for (fam, size) in [("sphere3", 0usize), ("torus", 0), ("grid", 6), ("grid", 13), ("grid", 24)] {
+        out.push(Case { kind: "bigmesh".into(), verts: vec![], force_closed: false, family: fam.into(), size, fine });
+    }
     for fam in ["tetrahedron", "octahedron", "prism", "box"] {
         for sol in [false, true] {
             out.push(Case { kind: "solid".into(), verts: vec![], force_closed: sol, family: fam.into(), size: 0, fine });
@@ -446,7 +500,7 @@ pub fn run(tier: Tier) -> i32 {
     let mut cx = Ctx::new("C02", tier, "exploration");
     cx.rule = "every 2D lattice curve with <= 4 vertices (open/force-closed) x the half-integer query grid; 3D lattice curves x a 7^3 grid; 7 structured large polyline families x 15 sizes (5..5000 edges: every QBVH occupancy and depth) x grid + on-entity queries; all 512 height fields over a 3x3 grid x 2 diagonal patterns and 4 solids (non-solid with inside queries, flagged solid with outside queries) x query grid x 4 caps x 3 angle limits; reference model: brute force over every edge / face. distinct = distinct entities".into();
     cx.bounds = json!({"curve2_seq_len": tier.pick(4, 5), "curve3_seq_len": 3, "query_grid_step": tier.pick(0.5, 0.25), "large_sizes": gen::LARGE_SIZES, "caps": [0.25, 1.0, 1.4142135623730951, 10.0], "angles": [0.2, 0.7853981633974483, 1.5]});
-    cx.require(&["query within 1e-3 of the surface", "query on the entity", "query equidistant from several elements", "query with a unique nearest element", "structured large polyline", "non-solid mesh with inside queries", "mesh flagged solid, outside queries"]);
+    cx.require(&["many-element mesh", "query within 1e-3 of the surface", "query on the entity", "query equidistant from several elements", "query with a unique nearest element", "structured large polyline", "non-solid mesh with inside queries", "mesh flagged solid, outside queries"]);
     cx.assume("ties: any minimiser accepted; gray: distance within 1e-9 of the cap, zero offset (angle undefined), angle within 1e-9 of the acceptance boundary");
     cx.assume("inside queries are made on non-solid meshes only, as the quantifier says (is_solid has no effect on Mesh::new meshes)");
     let cs = cases(tier);
